@@ -372,7 +372,7 @@ Definition seq_ev (o : op) : list cev :=
   | OCleanup => [CCollect; CDeleteKeys 0%nat]
   | OReset => [CReset]
   | OAdvance d => [CAdvance d]
-  | OKeys => []
+  | OKeys | OStop => []
   end.
 
 Theorem seq_embeds maxttl ops : forall s c,
@@ -387,7 +387,7 @@ Proof.
     assert (Hstep : exists c1, crun maxttl c (seq_ev o) = Some c1 /\
                cm c1 = smap (fst (step maxttl s o)) /\ cnow c1 = snow (fst (step maxttl s o)) /\
                cpend c1 = []).
-    { destruct o as [k v ttl|k|k| | |d|]; cbn [seq_ev crun cstep step].
+    { destruct o as [k v ttl|k|k| | |d| |]; cbn [seq_ev crun cstep step].
       - unfold set. rewrite Hm, Hn.
         destruct (set_at maxttl (smap s) (snow s) k v ttl) as [m'|]; eexists; (split; [reflexivity|]);
           cbn [cm cnow cpend fst smap snow]; rewrite ?Hp; auto.
@@ -397,6 +397,7 @@ Proof.
         cbn [cm cnow cpend pkeys fst cleanup smap snow]. rewrite Hm, Hn. auto.
       - eexists. split; [reflexivity|]. cbn [cm cnow cpend fst reset smap snow]. rewrite Hm. auto.
       - eexists. split; [reflexivity|]. cbn [cm cnow cpend fst advance smap snow]. rewrite Hn. auto.
+      - exists c. cbn [fst]. auto.
       - exists c. cbn [fst]. auto. }
     destruct Hstep as (c1 & Hr1 & Hm1 & Hn1 & Hp1).
     destruct (IH (fst (step maxttl s o)) c1 Hm1 Hn1 Hp1) as (c' & Hr & H').
